@@ -56,6 +56,15 @@ func NewFilterRuleList(rules []string) (*filterRuleList, error) {
 	return &l, nil
 }
 
+// Excludes reports whether the rules exclude the specified name
+// (relative to the transfer root). A nil list excludes nothing.
+func (l *filterRuleList) Excludes(name string) bool {
+	if l == nil {
+		return false
+	}
+	return l.matches(name)
+}
+
 // exclude.c:recv_filter_list
 func RecvFilterList(c *rsyncwire.Conn) (*filterRuleList, error) {
 	var l filterRuleList
